@@ -506,17 +506,17 @@ Proof.
   pose proof (cnt_le_length rest). lia.
 Qed.
 
-(* witness of the recorded finding hybrid_member_repeated (circular record of length 12) *)
+(* regression witness of the repaired finding hybrid_member_repeated (circular record of length 12): before the
+   repair the hybrid listed protocluster 1 twice (members 1, 1, 0, 2); the general statement is no_repeated_member below *)
 Definition w_wrapped : loc := [mkPart 5 12 1; mkPart 0 4 1].
 Definition w_protos : list proto :=
   [mkProto 0 w_wrapped w_wrapped 2 [1]; mkProto 1 w_wrapped w_wrapped 0 []; mkProto 2 [mkPart 5 12 1] [mkPart 5 12 1] 1 [1]].
-Lemma repeated_member_witness :
-  exists out c, create_candidates w_protos (Some 12) = Ok out /\ In c out /\
-                ckind c = K_HYBRID /\ nodupb (map pid (cmem c)) = false.
+Lemma repeated_member_witness_repaired :
+  exists out, create_candidates w_protos (Some 12) = Ok out /\
+              map (fun c => (ckind c, map pid (cmem c))) out = [(K_HYBRID, [1; 0; 2])].
 Proof.
   destruct (create_candidates w_protos (Some 12)) as [out|k] eqn:E; vm_compute in E; [|discriminate E].
-  inversion E as [E']. eexists. eexists. split; [reflexivity|]. split; [left; reflexivity|].
-  split; vm_compute; reflexivity.
+  inversion E as [E']. eexists. split; [reflexivity|]. vm_compute. reflexivity.
 Qed.
 
 (* ====================================================================================== *)
@@ -648,13 +648,21 @@ Proof.
   - right. exact (IH x H).
 Qed.
 
+Lemma first_occ_In : forall l seen x, In x (first_occ seen l) -> In x l.
+Proof.
+  induction l as [|c r IH]; intros seen x H; cbn [first_occ] in H; [destruct H|].
+  destruct (pmem c seen).
+  - right. exact (IH _ _ H).
+  - destruct H as [H|H]; [left; exact H|right; exact (IH _ _ H)].
+Qed.
+
 Lemma hybrid_extend_In : forall w clusters group r, hybrid_extend w clusters group = Ok r ->
   forall x, In x r -> In x group \/ In x clusters.
 Proof.
   intros w clusters group r H x Hx. unfold hybrid_extend in H.
   destruct (connect_locations (map pcore group) w) as [core|k]; cbn [bind] in H; [|discriminate H].
   inversion H; subst; clear H. apply in_app_or in Hx. destruct Hx as [Hx|Hx]; [left; exact Hx|right].
-  apply in_app_or in Hx. destruct Hx as [Hx|Hx].
+  apply first_occ_In in Hx. apply in_app_or in Hx. destruct Hx as [Hx|Hx].
   - apply contained_until_In in Hx. apply In_skipn' in Hx. exact Hx.
   - destruct (is_compound core); [apply contained_until_In in Hx; exact Hx|destruct Hx].
 Qed.
@@ -814,6 +822,21 @@ Proof.
   intro H. destruct (G crossing [] H) as [[]|A]. exact A.
 Qed.
 
+Lemma cross_all_group_In : forall crossing x, In x (cross_all_group crossing) ->
+  exists ck, In ck crossing /\ In x (cmem (fst ck)).
+Proof.
+  intros crossing x. unfold cross_all_group.
+  assert (G : forall l acc, In x (fold_left (fun acc ck => fold_left (fun a p => set_add p a)
+                      (cmem (fst ck)) acc) l acc) ->
+              In x acc \/ exists ck : cand * loc, In ck l /\ In x (cmem (fst ck))).
+  { induction l as [|ck r IH]; intros acc H; cbn [fold_left] in H; [left; exact H|].
+    destruct (IH _ H) as [A|[ck' [A B]]].
+    - apply In_fold_set_add in A. destruct A as [A|A]; [left; exact A|right].
+      exists ck. split; [left; reflexivity|exact A].
+    - right. exists ck'. split; [right; exact A|exact B]. }
+  intro H. destruct (G crossing [] H) as [[]|A]. exact A.
+Qed.
+
 Lemma find_cross_allin : forall P w cc unassigned groups found groups',
   find_cross_origin_interleaved w cc unassigned groups = Ok (found, groups') ->
   allin P groups -> incl unassigned P -> (forall ck, In ck cc -> incl (cmem (fst ck)) P) -> allin P groups'.
@@ -823,14 +846,19 @@ Proof.
   destruct (is_empty (filter (fun ck : cand * loc => cand_core_crosses (snd ck)) cc)); [inversion H; subst; exact HG|].
   destruct (connect_locations (map snd (filter (fun ck : cand * loc => cand_core_crosses (snd ck)) cc)) w) as [core|k];
     cbn [bind] in H; [|discriminate H].
-  destruct (is_empty (cross_core_group (filter (fun ck : cand * loc => cand_core_crosses (snd ck)) cc))); [discriminate H|].
-  destruct (cross_walk core (zlen unassigned) (rev (tl unassigned))
-              (cross_core_group (filter (fun ck : cand * loc => cand_core_crosses (snd ck)) cc), [])) as [cg1 f1] eqn:E1.
+  cbv zeta in H.
+  set (crossing := filter (fun ck : cand * loc => cand_core_crosses (snd ck)) cc) in *.
+  set (cg0 := if is_empty (cross_core_group crossing) then cross_all_group crossing else cross_core_group crossing) in *.
+  assert (Hcg0 : forall x, In x cg0 -> exists ck, In ck crossing /\ In x (cmem (fst ck))).
+  { intros x Hx. unfold cg0 in Hx. destruct (is_empty (cross_core_group crossing));
+      [exact (cross_all_group_In _ _ Hx)|exact (cross_core_group_In _ _ Hx)]. }
+  destruct (is_empty cg0); [discriminate H|].
+  destruct (cross_walk core (zlen unassigned) (rev (tl unassigned)) (cg0, [])) as [cg1 f1] eqn:E1.
   destruct (cross_walk core (zlen unassigned) unassigned (cg1, f1)) as [cg found2] eqn:E2.
   assert (Hcg : incl cg P).
   { intros x Hx. destruct (cross_walk_In _ _ _ _ _ _ E2 x Hx) as [A|A]; [|exact (HU x A)]. cbn [fst] in A.
     destruct (cross_walk_In _ _ _ _ _ _ E1 x A) as [B|B].
-    - cbn [fst] in B. apply cross_core_group_In in B. destruct B as [ck [B1 B2]]. apply filter_In in B1.
+    - cbn [fst] in B. apply Hcg0 in B. destruct B as [ck [B1 B2]]. apply filter_In in B1.
       exact (HC ck (proj1 B1) x B2).
     - apply in_rev in B. apply HU. destruct unassigned; [destruct B|right; exact B]. }
   destruct (existsb (fun ck : cand * loc => set_eqb cg (cmem (fst ck))) cc); [inversion H; subst; exact HG|].
@@ -963,10 +991,10 @@ Proof.
   assert (A5 : allin protos (find_neighbouring un2 c2)).
   { apply find_neighbouring_allin; [exact B3'|intros c Hc; exact (proj2 (G2 c Hc))]. }
   destruct (build_candidates_good protos _ _ _ _ _ _ _ _ E5 A5 T2 S2) as [G3 [T3 S3]].
-  destruct (singles_go w e3 (iter (un2 ++ s3))) as [ss|k] eqn:E6; cbn [bind] in H; [|discriminate H].
+  destruct (singles_go w e3 (ordered_set (un2 ++ s3))) as [ss|k] eqn:E6; cbn [bind] in H; [|discriminate H].
   inversion H; subst; clear H. intros c Hc. apply in_app_or in Hc. destruct Hc as [Hc|Hc]; [exact (G3 c Hc)|].
   refine (proj1 (singles_go_good protos _ _ _ _ E6 _ c Hc)).
-  intros x Hx. apply In_iter in Hx. apply in_app_or in Hx. destruct Hx as [Hx|Hx]; [exact (B3' x Hx)|exact (S3 x Hx)].
+  intros x Hx. apply In_ordered_set in Hx. apply in_app_or in Hx. destruct Hx as [Hx|Hx]; [exact (B3' x Hx)|exact (S3 x Hx)].
 Qed.
 
 Lemma create_candidates_good : forall protos w out, create_candidates protos w = Ok out ->
@@ -1252,7 +1280,7 @@ Proof.
   intros w clusters group r H. unfold hybrid_extend in H.
   destruct (connect_locations (map pcore group) w) as [core|k]; cbn [bind] in H; [|discriminate H].
   inversion H; subst; clear H. eexists. eexists. split; [reflexivity|]. split; [reflexivity|].
-  intros x Hx. apply in_app_or in Hx. destruct Hx as [Hx|Hx].
+  intros x Hx. apply first_occ_In in Hx. apply in_app_or in Hx. destruct Hx as [Hx|Hx].
   - split; [apply contained_until_In in Hx; apply In_skipn' in Hx; exact Hx|exact (contained_until_spec _ _ _ _ Hx)].
   - destruct (is_compound core); [|destruct Hx].
     split; [apply contained_until_In in Hx; exact Hx|exact (contained_until_spec _ _ _ _ Hx)].
@@ -1365,4 +1393,171 @@ Proof.
   destruct (build_candidates None K_HYBRID [oi_g1; oi_g2] [] []) as [[[c1 e1] s1]|k] eqn:E1; vm_compute in E1; [|discriminate E1].
   destruct (build_candidates None K_HYBRID [oi_g2; oi_g1] [] []) as [[[c2 e2] s2]|k] eqn:E2; vm_compute in E2; [|discriminate E2].
   inversion E1; inversion E2; subst. do 6 eexists. split; [reflexivity|]. split; [reflexivity|]. split; vm_compute; reflexivity.
+Qed.
+
+(* ====================================================================================== *)
+(* no protocluster is listed twice in a candidate (positive statement after the repair of  *)
+(* hybrid_member_repeated), and the regression witness of joint_core_wraps_assert          *)
+(* ====================================================================================== *)
+Definition ndg (g : list proto) : Prop := NoDup (map pid g).
+
+Lemma ndg_perm : forall g g', Permutation g g' -> ndg g -> ndg g'.
+Proof. intros g g' Hp H. unfold ndg in *. exact (Permutation_NoDup (Permutation_map pid Hp) H). Qed.
+
+Lemma ndg_sort_by : forall lt g, ndg g -> ndg (sort_by lt g).
+Proof. intros lt g H. exact (ndg_perm _ _ (Permutation_sym (sort_by_perm _ lt g)) H). Qed.
+
+Lemma ndg_ordered_list : forall g, ndg g -> ndg (ordered_list g).
+Proof. intros g H. unfold ordered_list. apply ndg_sort_by. apply ndg_sort_by. exact H. Qed.
+
+Lemma ndg_iter : forall g, ndg (iter g).
+Proof. intro g. unfold ndg. apply asc_NoDup. apply asc_iter. Qed.
+
+Lemma ndg_ordered_set : forall g, ndg (ordered_set g).
+Proof. intro g. unfold ordered_set. apply ndg_ordered_list. apply ndg_iter. Qed.
+
+Lemma ndg_merge_sets : forall G h, In h (merge_sets G) -> ndg h.
+Proof. intros G h H. unfold merge_sets in H. apply in_map_iff in H. destruct H as [g [E _]]. subst h. apply ndg_ordered_set. Qed.
+
+Lemma NoDup_app_disj : forall (a b : list Z), NoDup a -> NoDup b -> (forall x, In x a -> In x b -> False) -> NoDup (a ++ b).
+Proof.
+  induction a as [|x a IH]; intros b Ha Hb Hd; cbn [app]; [exact Hb|].
+  inversion Ha as [|? ? Hx Ha']; subst. constructor.
+  - intro Hin. apply in_app_or in Hin. destruct Hin as [Hin|Hin]; [exact (Hx Hin)|exact (Hd x (or_introl eq_refl) Hin)].
+  - apply IH; [exact Ha'|exact Hb|]. intros y Hy1 Hy2. exact (Hd y (or_intror Hy1) Hy2).
+Qed.
+
+(* `if cluster not in group`: what is appended is new and appended once *)
+Lemma first_occ_fresh : forall l seen,
+  ndg (first_occ seen l) /\ forall x, In x (first_occ seen l) -> ~ inS (pid x) seen.
+Proof.
+  induction l as [|c r IH]; intro seen; cbn [first_occ].
+  - split; [constructor|intros x []].
+  - destruct (pmem c seen) eqn:Ec; [exact (IH seen)|].
+    destruct (IH (c :: seen)) as [A B]. split.
+    + unfold ndg. cbn [map]. constructor; [|exact A]. intro Hin. apply in_map_iff in Hin.
+      destruct Hin as [y [Ey Hy]]. apply (B y Hy). unfold inS. cbn [map]. left. symmetry. exact Ey.
+    + intros x [Hx|Hx].
+      * subst x. intro Hs. apply pmem_inS in Hs. rewrite Hs in Ec. discriminate Ec.
+      * intro Hs. apply (B x Hx). unfold inS in *. cbn [map]. right. exact Hs.
+Qed.
+
+Lemma hybrid_extend_ndg : forall w clusters group r, hybrid_extend w clusters group = Ok r -> ndg group -> ndg r.
+Proof.
+  intros w clusters group r H Hg. unfold hybrid_extend in H.
+  destruct (connect_locations (map pcore group) w) as [core|k]; cbn [bind] in H; [|discriminate H].
+  inversion H; subst; clear H. unfold ndg. rewrite map_app.
+  match goal with |- NoDup (_ ++ map pid (first_occ group ?l)) => destruct (first_occ_fresh l group) as [A B] end.
+  apply NoDup_app_disj; [exact Hg|exact A|].
+  intros i Hi1 Hi2. apply in_map_iff in Hi2. destruct Hi2 as [y [Ey Hy]]. subst i. exact (B y Hy Hi1).
+Qed.
+
+Lemma find_hybrids_ndg : forall clusters w groups un, find_hybrids clusters w = Ok (groups, un) ->
+  forall g, In g groups -> ndg g.
+Proof.
+  intros clusters w groups un H. unfold find_hybrids in H. cbv zeta in H.
+  match type of H with bind ?e _ = _ => destruct e as [extended|k] eqn:EM end; cbn [bind] in H; [|discriminate H].
+  inversion H; subst; clear H. intros g Hg. apply in_map_iff in Hg. destruct Hg as [g0 [He Hg0]]. subst g.
+  apply ndg_ordered_list. destruct (mapM_In _ _ _ _ _ EM g0 Hg0) as [m [Hm Hext]].
+  exact (hybrid_extend_ndg _ _ _ _ Hext (ndg_merge_sets _ _ Hm)).
+Qed.
+
+Lemma build_go_ndg : forall w kind groups existing singles e s,
+  build_go w kind groups existing singles = Ok (e, s) ->
+  (forall g, In g groups -> ndg g) -> (forall c, In c (tvalues existing) -> ndg (cmem c)) ->
+  forall c, In c (tvalues e) -> ndg (cmem c).
+Proof.
+  intros w kind. induction groups as [|group rest IH]; intros existing singles e s H HG HE; cbn [build_go] in H.
+  - inversion H; subst. exact HE.
+  - destruct (negb ((kind =? K_SINGLE) || (1 <? zlen group))); [discriminate H|].
+    destruct (mk_cand w kind (ordered_list group)) as [candidate|k] eqn:Ec; cbn [bind] in H; [|discriminate H].
+    assert (HGr : forall g, In g rest -> ndg g) by (intros g Hg; exact (HG g (or_intror Hg))).
+    assert (Hcand : ndg (cmem candidate)).
+    { destruct (mk_cand_members _ _ _ _ Ec) as [B _]. rewrite B. apply ndg_ordered_list. exact (HG group (or_introl eq_refl)). }
+    destruct (tget (ckey candidate) existing) as [ex|] eqn:Et.
+    + destruct (is_empty (iter (diff group (iter (cmem ex))))) eqn:Eex.
+      * exact (IH _ _ _ _ H HGr HE).
+      * destruct (mk_cand w (ckind ex) (ordered_list (iter (cmem ex) ++ iter (diff group (iter (cmem ex))))))
+          as [replacement|k] eqn:Er; cbn [bind] in H; [|discriminate H].
+        apply (IH _ _ _ _ H HGr).
+        intros c Hc. apply tset_values in Hc. destruct Hc as [Hc|Hc]; [|exact (HE c Hc)]. subst c.
+        destruct (mk_cand_members _ _ _ _ Er) as [B _]. rewrite B. apply ndg_ordered_list.
+        unfold ndg. rewrite map_app. apply NoDup_app_disj; [apply ndg_iter|apply ndg_iter|].
+        intros i Hi1 Hi2. apply in_map_iff in Hi2. destruct Hi2 as [y [Ey Hy]]. subst i.
+        apply In_iter in Hy. unfold diff in Hy. apply filter_In in Hy. destruct Hy as [_ Hy].
+        apply negb_true_iff in Hy. assert (Hm : pmem y (iter (cmem ex)) = true) by (apply pmem_inS; exact Hi1).
+        rewrite Hm in Hy. discriminate Hy.
+    + apply (IH _ _ _ _ H HGr).
+      intros c Hc. apply tset_values in Hc. destruct Hc as [Hc|Hc]; [subst c; exact Hcand|exact (HE c Hc)].
+Qed.
+
+Lemma build_candidates_ndg : forall w kind groups existing singles cs e s,
+  build_candidates w kind groups existing singles = Ok (cs, e, s) ->
+  (forall g, In g groups -> ndg g) -> (forall c, In c (tvalues existing) -> ndg (cmem c)) ->
+  (forall c, In c cs -> ndg (cmem c)) /\ (forall c, In c (tvalues e) -> ndg (cmem c)).
+Proof.
+  intros w kind groups existing singles cs e s H HG HE. unfold build_candidates in H.
+  destruct (build_go w kind groups existing singles) as [[e0 s0]|k] eqn:Eb; cbn [bind] in H; [|discriminate H].
+  inversion H; subst; clear H. pose proof (build_go_ndg _ _ _ _ _ _ _ Eb HG HE) as A.
+  split; [|exact A]. intros c Hc. apply sort_by_in in Hc. exact (A c Hc).
+Qed.
+
+Lemma find_interleaved_ndg : forall clusters cands w groups un,
+  find_interleaved clusters cands w = Ok (groups, un) -> forall g, In g groups -> ndg g.
+Proof.
+  intros clusters cands w groups un H. unfold find_interleaved in H. cbv zeta in H.
+  destruct (with_cores w cands) as [cc|k] eqn:Ecc; cbn [bind] in H; [|discriminate H].
+  match type of H with bind ?e _ = _ => destruct e as [[found3 groups3]|k] eqn:EF end; cbn [bind] in H; [|discriminate H].
+  inversion H; subst; clear H. intros g Hg. exact (ndg_merge_sets _ _ Hg).
+Qed.
+
+Lemma formation_body_ndg : forall protos w cands, formation_body protos w = Ok cands ->
+  forall c, In c cands -> ndg (cmem c).
+Proof.
+  intros protos w cands H. unfold formation_body in H. cbv zeta in H.
+  destruct (find_hybrids (sort_by lt_pp protos) w) as [[hg un1]|k] eqn:E1; cbn [bind] in H; [|discriminate H].
+  pose proof (find_hybrids_ndg _ _ _ _ E1) as A1.
+  destruct (build_candidates w K_HYBRID hg [] []) as [[[c1 e1] s1]|k] eqn:E2; cbn [bind] in H; [|discriminate H].
+  destruct (build_candidates_ndg _ _ _ _ _ _ _ _ E2 A1) as [G1 T1]; [intros c []|].
+  destruct (find_interleaved un1 c1 w) as [[ig un2]|k] eqn:E3; cbn [bind] in H; [|discriminate H].
+  pose proof (find_interleaved_ndg _ _ _ _ _ E3) as A3.
+  destruct (build_candidates w K_INTERLEAVED ig e1 s1) as [[[c2 e2] s2]|k] eqn:E4; cbn [bind] in H; [|discriminate H].
+  destruct (build_candidates_ndg _ _ _ _ _ _ _ _ E4 A3 T1) as [G2 T2].
+  destruct (build_candidates w K_NEIGHBOURING (find_neighbouring un2 c2) e2 s2) as [[[c3 e3] s3]|k] eqn:E5;
+    cbn [bind] in H; [|discriminate H].
+  assert (A5 : forall g, In g (find_neighbouring un2 c2) -> ndg g).
+  { intros g Hg. unfold find_neighbouring in Hg. cbv zeta in Hg. exact (ndg_merge_sets _ _ Hg). }
+  destruct (build_candidates_ndg _ _ _ _ _ _ _ _ E5 A5 T2) as [G3 T3].
+  destruct (singles_go w e3 (ordered_set (un2 ++ s3))) as [ss|k] eqn:E6; cbn [bind] in H; [|discriminate H].
+  inversion H; subst; clear H. intros c Hc. apply in_app_or in Hc. destruct Hc as [Hc|Hc]; [exact (G3 c Hc)|].
+  destruct (singles_go_good (ordered_set (un2 ++ s3)) _ _ _ _ E6 (fun x Hx => Hx) c Hc) as [_ [_ [p [Ep _]]]].
+  rewrite Ep. unfold ndg. cbn [map]. constructor; [intros []|constructor].
+Qed.
+
+(* every candidate lists each protocluster at most once (by id) - no hypothesis on the input *)
+Lemma no_repeated_member : forall protos w out, create_candidates protos w = Ok out ->
+  forall c, In c out -> NoDup (map pid (cmem c)).
+Proof.
+  intros protos w out H c Hc. unfold create_candidates in H. destruct protos as [|p ps]; [inversion H; subst; destruct Hc|].
+  destruct (formation_body (p :: ps) w) as [cands|k] eqn:E; cbn [bind] in H; [|discriminate H].
+  destruct (negb (assigned_count cands =? zlen (p :: ps))); [discriminate H|]. inversion H; subst.
+  apply sort_by_in in Hc. exact (formation_body_ndg _ _ _ E c Hc).
+Qed.
+
+(* regression witness of the repaired finding joint_core_wraps_assert (circular record of length 72): hybrids {1,2}
+   and {0,5} both span [0:71] and are united; the united core is connected across the origin although no member core
+   crosses it; 3 and 4 are still unassigned.  Before the repair: Err E_Assert (`assert core_group`). *)
+Definition jc_p (i s e cs ce prod : Z) (defs : list Z) : proto := mkProto i [mkPart s e 1] [mkPart cs ce 1] prod defs.
+Definition jc_protos : list proto :=
+  [jc_p 0 0 71 51 52 5 [0]; jc_p 1 0 71 11 16 3 [1]; jc_p 2 4 12 7 12 4 [1];
+   jc_p 3 0 68 50 53 0 []; jc_p 4 30 58 50 53 2 []; jc_p 5 0 68 51 56 1 [0]].
+Lemma joint_core_wraps_witness_repaired :
+  class_joint_core_wraps jc_protos (Some 72) = true /\
+  exists out, create_candidates jc_protos (Some 72) = Ok out /\
+              map (fun c => (ckind c, map pid (cmem c))) out
+              = [(K_HYBRID, [1; 0; 3; 5; 2; 4]); (K_SINGLE, [3]); (K_SINGLE, [5]); (K_SINGLE, [4])].
+Proof.
+  split; [vm_compute; reflexivity|].
+  destruct (create_candidates jc_protos (Some 72)) as [out|k] eqn:E; vm_compute in E; [|discriminate E].
+  inversion E as [E']. eexists. split; [reflexivity|]. vm_compute. reflexivity.
 Qed.
